@@ -22,7 +22,8 @@ open UtapModel.C09
 def genCfg (mask : Nat) (isType : Nat → List Ch → Bool) : Cfg :=
   { rules := Gen.rules, kws := Gen.keywordTable, maxLen := Gen.maxLen, mask := mask,
     bitOld := Gen.bitOLD, bitProperty := Gen.bitPROPERTY, bitProb := Gen.bitPROB,
-    tConst := Gen.T_CONST, tOldConst := Gen.T_OLDCONST, isType := isType, expectStops := Gen.expectStopsBeforeClose }
+    tConst := Gen.T_CONST, tOldConst := Gen.T_OLDCONST, isType := isType, softLits := Gen.softLits,
+    expectStops := Gen.expectStopsBeforeClose }
 
 /-- `NEW | GUIDING`: the syntax of every text block of a model parsed with `newxta = true` -/
 def maskNew : Nat := Gen.bitNEW ||| Gen.bitGUIDING
@@ -121,12 +122,14 @@ theorem C09_witness_expect :
 
 /-- **Renaming, lexer half.**  Replace every user-chosen name `w` (a lexeme of the identifier rule that is no keyword
     under the current syntax) by `ρ w`, and let the symbol table answer `is_type` for `ρ w` as it answered for `w`.
+    (`hsoft`: no name of a repaired one-letter literal rule — `softLits`, empty on the unrepaired tree — is a type.)
     If the renamed text is still `Renderable` (each `ρ w` is matched by the identifier rule — see `C09_rename_lexeme`
     for when that holds — and the adjacency conditions still hold), no `ρ w` is a keyword and all names are shorter
     than MAXLEN, then the token stream of the renamed text is the renamed token stream. -/
 theorem C09_rename_lex (cfg : Cfg) (hwf : RulesWF cfg.rules = true) (hnp : NonProperty cfg)
     (isType' : Nat → List Ch → Bool) (ρ : List Ch → List Ch) (sep0 : List Triv) (items : List Item)
     (htype : ∀ n w, isType' n (ρ w) = cfg.isType n w)
+    (hsoft : ∀ n w, w ∈ cfg.softLits → cfg.isType n w = false ∧ isType' n w = false)
     (hρ : ∀ it ∈ items, isUserId cfg it = true →
         kwTok cfg (ρ it.w) = none ∧ (ρ it.w).length < cfg.maxLen ∧ it.w.length < cfg.maxLen)
     (h0 : sepOK sep0 (renderItems items) = true) (h : Renderable cfg items = true)
@@ -136,12 +139,13 @@ theorem C09_rename_lex (cfg : Cfg) (hwf : RulesWF cfg.rules = true) (hnp : NonPr
       (lex cfg (sepText sep0 ++ renderItems items)).map (renTok ρ) := by
   rw [lex_text cfg hwf hnp sep0 items h0 h,
       lex_text { cfg with isType := isType' } hwf hnp sep0 _ h0' h',
-      tokensOf_rename cfg isType' ρ htype items 0 hρ]
+      tokensOf_rename cfg isType' ρ htype hsoft items 0 hρ]
 
 /-- the same in any syntax (queries included) for texts whose separators contain no run of newlines -/
 theorem C09_rename_lex_query (cfg : Cfg) (hwf : RulesWF cfg.rules = true)
     (isType' : Nat → List Ch → Bool) (ρ : List Ch → List Ch) (sep0 : List Triv) (items : List Item)
     (htype : ∀ n w, isType' n (ρ w) = cfg.isType n w)
+    (hsoft : ∀ n w, w ∈ cfg.softLits → cfg.isType n w = false ∧ isType' n w = false)
     (hρ : ∀ it ∈ items, isUserId cfg it = true →
         kwTok cfg (ρ it.w) = none ∧ (ρ it.w).length < cfg.maxLen ∧ it.w.length < cfg.maxLen)
     (hnl : noNewlines sep0 items = true) (hnl' : noNewlines sep0 (renItems cfg ρ items) = true)
@@ -152,7 +156,7 @@ theorem C09_rename_lex_query (cfg : Cfg) (hwf : RulesWF cfg.rules = true)
       (lex cfg (sepText sep0 ++ renderItems items)).map (renTok ρ) := by
   rw [lex_text_nonl cfg hwf sep0 items hnl h0 h,
       lex_text_nonl { cfg with isType := isType' } hwf sep0 _ hnl' h0' h',
-      tokensOf_rename cfg isType' ρ htype items 0 hρ]
+      tokensOf_rename cfg isType' ρ htype hsoft items 0 hρ]
 
 /-- **The range of the renaming.**  A text of the shape `{alpha}{idchr}*` that is not the text of a literal rule of
     lexer.l, not a keyword under the current syntax and shorter than MAXLEN is matched by the identifier rule and
@@ -183,11 +187,13 @@ theorem C09_rename_full_outside_exceptions (x : List Ch) (hid : identShaped x = 
   exact ⟨hm, hid, hk⟩
 
 /-- **Negation on the witnesses** (`rename:typedef-named-A` …): with a symbol table in which every name is a type,
-    `B` is a T_TYPENAME but none of the names of the exception set is — renaming the typedef `B` to `A` changes the
-    token stream beyond the renaming. -/
+    `B` is a T_TYPENAME; a name of the exception set is one exactly when its literal rule of lexer.l has been repaired to
+    consult `is_type` first (`Gen.softLits`, regenerated from the source: empty on the unrepaired tree, where renaming the
+    typedef `B` to `A` therefore changes the token stream beyond the renaming). -/
 theorem C09_witness_typedef_named :
     let cfg := genCfg maskNew (fun _ _ => true)
-    lex cfg [66] = [.typename [66]] ∧ ∀ x ∈ exceptionNames, lex cfg x ≠ [.typename x] := by
+    lex cfg [66] = [.typename [66]] ∧
+    ∀ x ∈ exceptionNames, decide (lex cfg x = [.typename x]) = Gen.softLits.contains x := by
   decide +kernel
 
 /-- what the grammar's `NonTypeId` makes of a token: the identifier spelling it stands for -/
